@@ -187,6 +187,14 @@ class RefWorld:
         d = self.ds[op["d"]]
         if o == "add":
             return self.add(d, op)
+        if o == "addcoll":
+            path = op["path"].split(".")
+            if len(path) != 1:
+                raise Skip("nested empty collection")
+            if path[0] in d.fields:
+                raise Expected("fieldExists")
+            d.fields[path[0]] = RColl(path[0], op["level"])
+            return "-"
         if o == "del":
             path = op["path"].split(".")
             if len(path) > 2:
